@@ -31,11 +31,22 @@ func (t T1) Hello() string         { return "hello" }
 func (t *T1) PtrM() string         { return "ptrm" }
 func (t T1) Twice(s string) string { return s + s }
 
+// Load has the (value, error) result shape and always fails: the value must never be used
+func (t T1) Load() (string, error) { return "half-loaded", sentinels[3] }
+
 // T4: every method has a pointer receiver (like *bytes.Buffer); its results depend on the receiver
 type T4 struct{ N int64 }
 
 func (t *T4) Next() int64 { return t.N + 1 }
 func (t *T4) Self() int64 { return t.N }
+
+// Try has the (value, error) result shape: it fails for receivers with N >= 10
+func (t *T4) Try() (int64, error) {
+	if t.N >= 10 {
+		return t.N, sentinels[2]
+	}
+	return t.N, nil
+}
 
 type T3 struct {
 	T2
@@ -46,10 +57,10 @@ var typeIDs = map[reflect.Type]int{reflect.TypeOf(T1{}): 1, reflect.TypeOf(T2{})
 
 // method tables: type id -> via pointer -> name -> function id
 var methodTable = map[int]map[bool]map[string]int{
-	1: {false: {"Hello": 21, "Twice": 23}, true: {"Hello": 21, "PtrM": 22, "Twice": 23}},
+	1: {false: {"Hello": 21, "Twice": 23, "Load": 26}, true: {"Hello": 21, "PtrM": 22, "Twice": 23, "Load": 26}},
 	2: {false: {"GetX": 20}, true: {"GetX": 20}},
 	3: {false: {"GetX": 20}, true: {"GetX": 20}},
-	4: {false: {}, true: {"Next": 24, "Self": 25}},
+	4: {false: {}, true: {"Next": 24, "Self": 25, "Try": 27}},
 }
 
 var sentinels = []error{nil, errors.New("sentinel-1"), errors.New("sentinel-2"), errors.New("sentinel-3")}
